@@ -151,6 +151,11 @@ func (p *ProjectionParser) makeProjection(s *Projection, q string, proj parse.Fi
 	var filter filterFn
 	makeFilter := func(ext extractor) {}
 	if proj.Order == "fixed" {
+		if len(proj.Fixed) == 0 {
+			// The parser rejects an empty value list, so this is
+			// the literal order name "fixed", which is not an order.
+			return nil, &parse.SyntaxError{q, proj.OrderOff, fmt.Sprintf("unknown order %q", proj.Order)}
+		}
 		fixedMap := make(map[string]int, len(proj.Fixed))
 		for i, s := range proj.Fixed {
 			fixedMap[s] = i
